@@ -138,9 +138,22 @@ theorem sat_classify :
     by_cases hroot : p = rootP
     · subst hroot
       simp only [if_true]
-      apply (sat_classify rest pl w hg hnf hkeys' hacc').mono
+      apply Sat.bind
+      apply (sat_ensureRoot (S := S) hg i).mono
+      intro w1 r1 ⟨hs1, f, hr1, hf⟩
+      have hg1 : S.G w1.fs := hs1.fs ▸ hg
+      have hnf1 : w1.faults = [] := by rw [hs1.faults]; exact hnf
+      have hacc1 : ∀ p oi, (p, oi) ∈ rest → ∀ k, PKey k → p = kp k → NoLinkAnc (S.view .base w1.fs) k := by
+        rw [hs1.fs]; exact hacc'
+      obtain rfl := hf hnf
+      subst hr1
+      simp only [Bool.false_eq_true, if_false]
+      apply (sat_classify rest pl w1 hg1 hnf1 hkeys' hacc1).mono
       intro w2 r2 ⟨hs2, pl', hr2, hc⟩
-      refine ⟨hs2, pl', hr2, hc.failed, ?_, ?_, ?_, ?_⟩
+      have hc : Classified S w rest pl pl' := by
+        refine ⟨hc.failed, ?_, hc.dirs, hc.files, hc.links⟩
+        intro q; rw [hc.removeBase q, hs1.fs]
+      refine ⟨hs1.trans hs2, pl', hr2, hc.failed, ?_, ?_, ?_, ?_⟩
       · intro q; rw [hc.removeBase q]; simp
       · intro q; rw [hc.dirs q]
         constructor
@@ -339,7 +352,11 @@ theorem sat_classify_nd : ∀ (l : List (Path × Option Info)) (pl : RollbackPla
     simp only [List.map_cons, List.nodup_cons] at hl
     have hnd' := hnd.tail
     split
-    · exact sat_classify_nd rest _ _ hl.2 hnd'
+    · apply Sat.bind_total (ensureRoot_total cfg p i)
+      intro f w1
+      cases f
+      · exact sat_classify_nd rest _ _ hl.2 hnd'
+      · exact sat_classify_nd rest _ _ hl.2 (by cases hnd'; constructor <;> assumption)
     · cases i.kind with
       | dir =>
         apply sat_classify_nd rest _ _ hl.2
